@@ -334,10 +334,86 @@ func c12Stale(r *Result, rng randLike, n int) {
 	r.count("stale")
 }
 
+// c12AbandonedWait: Start, then a Wait whose caller gives up (context already cancelled, or a very short timeout) while the
+// engine has not yet written the plan Running — its first write is held back — then Start again. The plan is executing:
+// the second Start must be refused, the plan must run once, and a later Wait must still find it.
+func c12AbandonedWait(r *Result, env *engineEnv, rng randLike, n int) {
+	newTracerInto(env)
+	ps := genSmallSpec(rng, fmt.Sprintf("w%d.", n))
+	release := make(chan struct{})
+	first := true
+	var mu sync.Mutex
+	env.spy.hook = func(e *Event) {
+		mu.Lock()
+		f := first && e.L == "wPlan"
+		if f {
+			first = false
+		}
+		mu.Unlock()
+		if f {
+			select {
+			case <-release:
+			case <-time.After(50 * time.Millisecond):
+			}
+		}
+	}
+	defer func() { env.spy.hook = nil }()
+	p, err := env.submit(ps, 0)
+	if err != nil {
+		r.finding(Finding{Kind: "crash", Clause: "C12.submit", Text: err.Error()})
+		return
+	}
+	how := []string{"cancelled", "timeout"}[n%2]
+	desc := map[string]any{"kind": "start, abandoned wait (" + how + "), start", "spec": ps}
+	breadcrumb(desc)
+	ctx := context.Background()
+	err1 := env.ws.Start(ctx, p.ID)
+	wctx, cancel := context.WithCancel(ctx)
+	if how == "cancelled" {
+		cancel()
+	} else {
+		var c2 context.CancelFunc
+		wctx, c2 = context.WithTimeout(ctx, 200*time.Microsecond)
+		defer c2()
+	}
+	pan := safeCall("wait", func() { env.ws.Wait(wctx, p.ID) })
+	cancel()
+	var err2 error
+	pan2 := safeCall("start", func() { err2 = env.ws.Start(ctx, p.ID) })
+	close(release)
+	fctx, fcancel := context.WithTimeout(ctx, 15*time.Second)
+	_, werr := env.ws.Wait(fctx, p.ID)
+	fcancel()
+	time.Sleep(time.Millisecond)
+	if pan != "" || pan2 != "" {
+		r.finding(Finding{Kind: "monitor", Clause: "C12.no_panic", Features: map[string]any{"call": "wait/start"}, Text: "a public API call panicked: " + pan + pan2, Case: desc})
+	}
+	if err1 == nil && err2 == nil {
+		r.finding(Finding{Kind: "monitor", Clause: "C12.second_start_rejected", Features: map[string]any{"after": "abandoned wait"}, Text: "a second Start on an executing plan was accepted after a Wait whose caller had given up", Case: desc})
+	}
+	calls := map[string]int{}
+	for _, e := range env.tr.snapshot() {
+		if e.L == "enter" {
+			calls[e.Tag]++
+		}
+	}
+	for tag, c := range calls {
+		if c > 1 {
+			r.finding(Finding{Kind: "monitor", Clause: "C12.at_most_one_execution", Features: map[string]any{"after": "abandoned wait"}, Text: fmt.Sprintf("action %s was invoked %d times", tag, c), Case: desc})
+			break
+		}
+	}
+	if err1 == nil && werr != nil {
+		r.finding(Finding{Kind: "monitor", Clause: "C12.wait_after_start", Features: map[string]any{"after": "abandoned wait"}, Text: "Wait failed on an executing plan after another Wait had been abandoned: " + werr.Error(), Case: desc})
+	}
+	r.eval(desc, true)
+	r.count("abandoned wait")
+}
+
 func init() {
 	campaigns["C12"] = func(r *Result) {
 		quietLogs()
-		r.Rule = "API-call histories of 3-10 calls (Submit, Start, Wait, Status, Plan on the plan's id; Start/Wait/Status/Plan on unknown and nil ids) on slow plans so that Starts arrive while the plan runs; racing Starts (2-4 goroutines released together, the engine's first Running write delayed 0-400us); stale submissions (WithMaxSubmit 60ms, Start after 120ms); all in a child process whose death is reported; non-trivial = history of >=2 calls; distinct by history/spec"
+		r.Rule = "API-call histories of 3-10 calls (Submit, Start, Wait, Status, Plan on the plan's id; Start/Wait/Status/Plan on unknown and nil ids) on slow plans so that Starts arrive while the plan runs; racing Starts (2-4 goroutines released together, the engine's first Running write delayed 0-400us); Start / abandoned Wait (cancelled or timed-out context while the first Running write is held back) / Start again; stale submissions (WithMaxSubmit 60ms, Start after 120ms); all in a child process whose death is reported; non-trivial = history of >=2 calls; distinct by history/spec"
 		env, err := newEngineEnv("")
 		if err != nil {
 			r.finding(Finding{Kind: "crash", Clause: "C12.env", Text: err.Error()})
@@ -352,6 +428,9 @@ func init() {
 		phase(0.9)
 		for i := 0; i < tierN(120, 3000) && !expired(); i++ {
 			c12Race(r, env, rng, i)
+		}
+		for i := 0; i < tierN(12, 200) && !expired(); i++ {
+			c12AbandonedWait(r, env, rng, i)
 		}
 		phase(1)
 		for i := 0; i < tierN(4, 40) && !expired(); i++ {
